@@ -114,7 +114,7 @@ variable (c : SaCore)
 @[keepsConst] theorem saOf_c (p) : Keeps (ConstI c) (saOf p) := by unfold saOf; keeps_c
 @[keepsConst] theorem keOf_c (p) : Keeps (ConstI c) (keOf p) := by unfold keOf; keeps_c
 @[keepsConst] theorem nonceOf_c (p) : Keeps (ConstI c) (nonceOf p) := by unfold nonceOf; keeps_c
-@[keepsConst] theorem tsOf_c (p) : Keeps (ConstI c) (tsOf p) := by unfold tsOf; keeps_c
+@[keepsConst] theorem tsBodyOf_c (p) : Keeps (ConstI c) (tsBodyOf p) := by unfold tsBodyOf; keeps_c
 @[keepsConst] theorem idOf_c (p) : Keeps (ConstI c) (idOf p) := by unfold idOf; keeps_c
 @[keepsConst] theorem abortOnErrorNotifies_c (m e i) : Keeps (ConstI c) (abortOnErrorNotifies m e i) := by
   unfold abortOnErrorNotifies; keeps_c
